@@ -1,6 +1,7 @@
 From Coq Require Import ZArith List Bool Lia.
 From Arsenal Require Import Util.
 From Arsenal Require Import Budget BudgetProofs.
+From Arsenal Require VamDev VamBlockList Vam VamInv VamInvThm VamProps VamAcct VamAcctThm.
 Import ListNotations.
 Open Scope Z_scope.
 (* C11 — Configured limits and allocation-mode flags are always respected.
@@ -38,3 +39,32 @@ Print Assumptions C11_cas_limit_all_interleavings.
 
 Example C11_nonvacuous : in_bdomain ex_cfg ex_rep ex_bops = true.
 Proof. exact ex_in_bdomain. Qed.
+
+(* ---------------------------------------------------------------- whole allocator (model Vam*.v)
+   For EVERY state reachable from vam.New by any sequence of API calls (any fault oracle; sizes below 2^62):
+   the bytes of device memory live on the device in a heap never exceed min(HeapSizeLimits[h], heap size)
+   when a limit is configured, never the heap size, and the number of live memory objects never exceeds
+   maxMemoryAllocationCount.  OPEN: pool minimum / maximum block counts, NeverAllocate and Dedicated
+   exactness (decided by the vamh exploration, limits / pools profiles with the pool-bounds preamble). *)
+Module Allocator.
+Import VamDev VamBlockList Vam VamInv VamInvThm VamProps VamAcct VamAcctThm.
+
+Theorem C11_allocator_heap_limit_respected : forall c v h,
+  cfg_acct c -> reachA c v -> 0 <= h -> 0 < heapLimit (bcfg_of c) h ->
+  dev_bytes c v h <= Z.min (heapLimit (bcfg_of c) h) (heap_size c h).
+Proof. intros c v h Ha. exact (VamAcctThm.heap_limit_respected c Ha v h). Qed.
+Print Assumptions C11_allocator_heap_limit_respected.
+
+Theorem C11_allocator_heap_size_respected : forall c v h,
+  cfg_acct c -> reachA c v -> dev_bytes c v h <= heap_size c h.
+Proof. intros c v h Ha. exact (heap_size_respected c Ha v h). Qed.
+Print Assumptions C11_allocator_heap_size_respected.
+
+Theorem C11_allocator_count_limit_respected : forall c v,
+  cfg_acct c -> reachA c v -> zlen (m_mems (v_m v)) <= c_maxcount c.
+Proof. intros c v Ha. exact (VamAcctThm.count_limit_respected c Ha v). Qed.
+Print Assumptions C11_allocator_count_limit_respected.
+
+Example C11_allocator_nonvacuous : cfg_acct exA_cfg.
+Proof. exact exA_cfg_acct. Qed.
+End Allocator.
